@@ -341,6 +341,7 @@ type c11run struct {
 	evs      []c11ev // callbacks of the current call
 	nstreams int
 	curKD    [2]int
+	kdSid    map[[2]int]int // stream of the latest connection opened for a key
 	seenKD   map[[2]int]bool
 	reopen   bool
 }
@@ -386,6 +387,7 @@ func (r *c11run) newStream() int {
 		r.reopen = true
 	}
 	r.seenKD[r.curKD] = true
+	r.kdSid[r.curKD] = r.nstreams
 	r.evs = append(r.evs, c11ev{kind: 'N', sid: r.nstreams, s: fmt.Sprintf("N%d", r.nstreams)})
 	return r.nstreams
 }
@@ -489,7 +491,8 @@ type c11half struct {
 
 func (c11) Run(c Case) Result {
 	var res Result
-	r := &c11run{pkg: "t", seenKD: map[[2]int]bool{}}
+	r := &c11run{pkg: "t", seenKD: map[[2]int]bool{}, kdSid: map[[2]int]int{}}
+	ownLast := map[int]int{} // sid -> newest timestamp among the packets given to its connection
 	var ta *tcpassembly.Assembler
 	var tp *tcpassembly.StreamPool
 	var ra *reassembly.Assembler
@@ -655,6 +658,13 @@ func (c11) Run(c Case) Result {
 			res.Obs = append(res.Obs, "panic=1")
 			break
 		}
+		if name == "seg" && !(r.pkg == "t" && ai(3) == 0 && ai(4) == 0) {
+			if sid, ok := r.kdSid[r.curKD]; ok {
+				if v, ok := ownLast[sid]; !ok || v < ai(5) {
+					ownLast[sid] = ai(5)
+				}
+			}
+		}
 		evs := append([]c11ev(nil), r.evs...)
 		sorted := append([]c11ev(nil), evs...)
 		sort.SliceStable(sorted, func(i, j int) bool { return sorted[i].sid < sorted[j].sid })
@@ -783,8 +793,8 @@ func (c11) Run(c Case) Result {
 					if r.pkg == "r" {
 						closeCut, closing = flX, flX != -1
 					}
-					if closing && !h.hasHead && cc.connLastSeen < closeCut {
-						fail("C11:age", fmt.Sprintf("idle: stream %d idle since %d with nothing queued not closed by flush/close older than %d", cc.sid, cc.connLastSeen, closeCut))
+					if own, ok := ownLast[cc.sid]; ok && closing && !h.hasHead && own < closeCut {
+						fail("C11:age", fmt.Sprintf("idle: stream %d idle since %d with nothing queued not closed by flush/close older than %d (lastSeen=%d)", cc.sid, own, closeCut, cc.connLastSeen))
 					}
 				}
 			}
